@@ -842,6 +842,15 @@ func guardText(fn *ssa.Function, b *ssa.BasicBlock) string {
 	return condText(fn, es[0].If.Cond, es[0].Outcome)
 }
 
+// allGuardsText: every dominating branch condition of b with its outcome, outermost last.
+func allGuardsText(fn *ssa.Function, b *ssa.BasicBlock) string {
+	var parts []string
+	for _, e := range domEdges(b) {
+		parts = append(parts, condText(fn, e.If.Cond, e.Outcome))
+	}
+	return strings.Join(parts, " ;; ")
+}
+
 func condText(fn *ssa.Function, cond ssa.Value, outcome bool) string {
 	s := exprText(fn, cond)
 	if !outcome {
@@ -1488,9 +1497,10 @@ func knownNonNilPtr(v ssa.Value, b *ssa.BasicBlock) bool {
 // ---- table
 
 type tableEntry struct {
-	Count  int
-	Reason string
-	used   int
+	Count    int
+	Reason   string
+	Requires []string // substrings that must occur in the dominating-guard text of every site covered by the entry
+	used     int
 }
 
 func loadNopanicTable(id string) map[string]*tableEntry {
@@ -1509,7 +1519,13 @@ func loadNopanicTable(id string) map[string]*tableEntry {
 		}
 		n := 1
 		fmt.Sscan(f[3], &n)
-		out[f[0]+"|"+f[1]+"|"+f[2]] = &tableEntry{Count: n, Reason: f[4]}
+		te := &tableEntry{Count: n, Reason: f[4]}
+		if len(f) >= 6 && strings.TrimSpace(f[5]) != "" {
+			for _, r := range strings.Split(f[5], " && ") {
+				te.Requires = append(te.Requires, strings.TrimSpace(r))
+			}
+		}
+		out[f[0]+"|"+f[1]+"|"+f[2]] = te
 	}
 	return out
 }
@@ -1559,6 +1575,27 @@ func (np *nopanic) run(id string, maybeNil func(fn *ssa.Function) func(v ssa.Val
 		var pos []string
 		for _, s := range g.sites {
 			pos = append(pos, instrPos(c.W, s.Ins))
+		}
+		if os.Getenv("MIXVET_DUMP_GUARDS") != "" {
+			for _, s := range g.sites {
+				fmt.Printf("GUARDS\t%s\t%s\n", k, allGuardsText(s.Fn, s.Ins.Block()))
+			}
+		}
+		if te != nil && te.Count >= len(g.sites) && len(te.Requires) > 0 {
+			missing := ""
+			for _, s := range g.sites {
+				gt := allGuardsText(s.Fn, s.Ins.Block())
+				for _, r := range te.Requires {
+					if !strings.Contains(gt, r) {
+						missing = r
+					}
+				}
+			}
+			if missing != "" {
+				c.Fail("nopanic", k, "the reviewed invariant of this site relies on a dominating guard that must still be present",
+					fmt.Sprintf("guard [%s] no longer dominates the site %s (reviewed reason: %s); call chain: %s", missing, g.sites[0].Detail, te.Reason, np.chain(g.sites[0].Fn)), pos...)
+				continue
+			}
 		}
 		if te != nil && te.Count >= len(g.sites) {
 			te.used = len(g.sites)
